@@ -16,7 +16,7 @@ RULE = ("row and column sizes factorised into d=1..4 factors from 1..4 (size-1 f
         "the stored cores; (cp) CPMatrix(M, rank): torch()/cp_multiply against the NumPy contraction of the stored factors, also after replacing the "
         "factors by random ones, and torch()==M for two factors with rank >= min unfolding size; (kron) Kronecker products of d well-conditioned square "
         "blocks (singular values in [0.7,1.5], random determinant signs; SPD for cholesky) given as rank-1 cores or as the dense product with ranks "
-        "[1..1]: determinant, slog_determinant, inv, cholesky against numpy.linalg on np.kron; (reject) the same routines on TT-rank>1 inputs and on "
+        "[1..1] (or, for 40% of the non-batch dense builds, under a generous rank cap 2..4 which the compression does not use): determinant, slog_determinant, inv, cholesky against numpy.linalg on np.kron; (reject) the same routines on TT-rank>1 inputs and on "
         "rank-1 inputs with non-square blocks must raise; both default dtypes. distinct = (kind, op, input_dims, output_dims, ranks, batch, fill, dd); "
         "non-trivial = d >= 2 or batch")
 TRUSTED = ["NumPy einsum/linalg (oracle); float rounding: 1e-9 scaled max-norm for contractions, 1e-8 relative for determinants/inverses/Cholesky of "
@@ -77,6 +77,9 @@ def cases(rng, tier):
             batch = None if rng.random() < 0.65 else rng.randint(1, 3)
             c.update(kind="kron", ns=ns, op=op, batch=batch,
                      build="cores" if (op == "cholesky" or rng.random() < (0.85 if batch else 0.5)) else "dense")
+            if c["build"] == "dense" and not batch and len(ns) >= 2 and rng.random() < 0.4:
+                # the dense Kronecker matrix compressed with a GENEROUS rank cap: compression still finds ranks 1
+                c["cap"] = [rng.randint(2, 4) for _ in range(len(ns) - 1)]
         else:
             d = rng.choice([1, 2, 2, 3, 3, 4])
             why = rng.choice(["rank", "nonsquare"]) if d >= 2 else "nonsquare"
@@ -452,7 +455,7 @@ def build_kron(case, blocks_per_b, ns, batch, build):
         return safe(lambda: tn.TTMatrix(cs, ranks=[1] * (d - 1), input_dims=list(ns), output_dims=list(ns)))
     Ks = [kron_all(bl) for bl in blocks_per_b]
     M = np.stack(Ks) if batch else Ks[0]
-    return safe(lambda: tn.TTMatrix(T(M), ranks=[1] * (d - 1), input_dims=list(ns), output_dims=list(ns)))
+    return safe(lambda: tn.TTMatrix(T(M), ranks=case.get("cap") or [1] * (d - 1), input_dims=list(ns), output_dims=list(ns)))
 
 
 def result_dense(res, B, batch):
@@ -477,6 +480,10 @@ def run_kron(ctx, case, rng, report):
                ("batch" if batch else "non-batch"), "building the Kronecker TTMatrix (%s) raised %s: %s" % (build, r[1], r[2]), raises=r[1])
         return
     ttm = r[1]
+    if case.get("cap"):
+        if any(c_.shape[0] != 1 or c_.shape[-1] != 1 for c_ in ttm.cores):
+            ctx.count("kron: compression under a generous cap kept a rank > 1 (round-off; not a Kronecker TT-matrix)"); return
+        ctx.count("kron: dense matrix compressed under a generous rank cap")
     pred = "Kronecker product of square blocks, " + ("single block (d=1)" if d == 1 else "d>=2 blocks")
     r = safe(lambda: getattr(ttm, op)())
     if r[0] == "err":
